@@ -40,3 +40,13 @@ CHECKS.update({
     note=R1NOTE + ' Sources on which calmjs and the reference parser already disagree are counted and left to C03.',
     technique='round-trip + differential property-based testing with exhaustive adjacency-product enumeration'),
 })
+CHECKS.update({
+ 'C16': dict(
+    text='Reflection oracle over trees of grammar-derived programs and repository snippets: the nodes reachable through instance attributes must be exactly what Walker.walk yields, once each, pre-order, repeatably; filter equals walk-then-select and extract returns the k-th match or raises TypeError, for generated predicates and skip values around the match count.',
+    note='Trusted: Python reflection over vars(node); attached comments and positions treated as metadata (stated domain decision).',
+    technique='Hypothesis property-based testing with a reflective reference model of traversal'),
+ 'C20': dict(
+    text='The pretty output of nesting-biased grammar-derived programs (with and without comment capture) under many indentation strings is parsed by the reference front end; each line that starts a token must carry exactly indent x depth, depth computed from the brace structure of the reference tree plus one inside case/default bodies; final-newline clause checked on the text.',
+    note=R1NOTE,
+    technique='Hypothesis property-based testing against an independent indentation model derived from a reference parse of the output'),
+})
